@@ -28,6 +28,8 @@ type Op struct {
 	Fresh bool           `json:"fresh,omitempty"`
 	Tag   string         `json:"tag,omitempty"` // driver annotation (what the step is for); not read by the spec
 	Meter bool           `json:"meter,omitempty"`
+	Fn    string         `json:"fn,omitempty"`   // primitive name (op "prim")
+	Args  map[string]any `json:"args,omitempty"` // primitive arguments
 }
 
 // Event is what the recorder logs for one Op at its return (error and panic paths too).
@@ -51,6 +53,9 @@ type Event struct {
 	InLen int    `json:"inlen"` // unread bytes before the call
 	Tag   string `json:"tag"`
 	From  string `json:"from"`
+	Fresh bool   `json:"fresh"`
+	Fn    string `json:"fn"`
+	Args  any    `json:"args"`
 	H     int    `json:"h"` // history number
 }
 
@@ -96,7 +101,10 @@ func guarded(f func() error) (res string, errs string) {
 func (m *Machine) Exec(op Op) (Event, error) {
 	m.NextID++
 	ev := Event{ID: m.NextID, Op: op.Op, B: op.B, O: op.O, T: op.T, K: op.K, Bytes: []int{}, V: emptyObj, VPost: emptyObj,
-		Res: "na", Post: []int{}, Out: []int{}, Alg: op.Alg, Alloc: -1, Tag: op.Tag, From: op.From, H: m.Hist}
+		Res: "na", Post: []int{}, Out: []int{}, Alg: op.Alg, Alloc: -1, Tag: op.Tag, From: op.From, Fresh: op.Fresh, Fn: op.Fn, Args: map[string]any{}, H: m.Hist}
+	if op.Args != nil {
+		ev.Args = op.Args
+	}
 	if op.Bytes != nil {
 		ev.Bytes = op.Bytes
 	}
@@ -110,7 +118,6 @@ func (m *Machine) Exec(op Op) (Event, error) {
 		ev.T = NameOf(obj)
 		m.Types[op.O] = ev.T
 		ev.V = Dump(obj)
-		ev.VPost = ev.V
 	case "newzero":
 		c, ok := Ctors[op.T]
 		if !ok {
@@ -171,7 +178,6 @@ func (m *Machine) Exec(op Op) (Event, error) {
 			return ev, err
 		}
 		b := m.buf(op.B)
-		ev.V = Dump(obj)
 		ev.InLen = b.Len()
 		var ms0, ms1 runtime.MemStats
 		if op.Meter {
@@ -355,4 +361,37 @@ func NewRecorder(w io.Writer) *Recorder {
 func (r *Recorder) Emit(ev Event) error {
 	r.N++
 	return r.enc.Encode(ev)
+}
+
+// OpOfEvent reconstructs the Op that produced a recorded event (for replay files).
+func OpOfEvent(e map[string]any) (Op, error) {
+	data, err := json.Marshal(e)
+	if err != nil {
+		return Op{}, err
+	}
+	var ev struct {
+		Op    string         `json:"op"`
+		B     string         `json:"b"`
+		O     string         `json:"o"`
+		T     string         `json:"t"`
+		K     int            `json:"k"`
+		Bytes []int          `json:"bytes"`
+		V     map[string]any `json:"v"`
+		Alg   string         `json:"alg"`
+		Tag   string         `json:"tag"`
+		From  string         `json:"from"`
+		Alloc int            `json:"alloc"`
+		Fresh bool           `json:"fresh"`
+		Fn    string         `json:"fn"`
+		Args  map[string]any `json:"args"`
+	}
+	if err := json.Unmarshal(data, &ev); err != nil {
+		return Op{}, err
+	}
+	op := Op{Op: ev.Op, B: ev.B, O: ev.O, T: ev.T, K: ev.K, Bytes: ev.Bytes, Alg: ev.Alg, Tag: ev.Tag, From: ev.From, Fresh: ev.Fresh,
+		Meter: ev.Alloc >= 0, Fn: ev.Fn, Args: ev.Args}
+	if ev.Op == "new" {
+		op.V = ev.V
+	}
+	return op, nil
 }
